@@ -302,57 +302,8 @@ func c08(w *core.World, r *core.Report) {
 		r.Check(s0.HasCallTo(name) && s1.HasCallTo(name), "DELETE-PAIR", core.Site(reg, "NewDeleteEntryImpl"), w.InstrPos(c), "both representations must depend on the old case")
 	}
 
-	// ---- BRANCH-WHOLE
-	r.Rule("BRANCH-WHOLE", 2, "GetBranchesHighesPrecedence answers for the path itself AND everything below it: every return comes after the walk over the whole keys index (no early answer from an exact hit), the loop accepts a key equal to the joined path (an equality test of the range key with the join result exists) as well as keys below it. Presence containers are stored at their own path while other intents may hold values below them.")
-	if f := w.Func("pkg/tree", "TreeCacheClientImpl", "GetBranchesHighesPrecedence"); f != nil {
-		var rng *ssa.Range
-		for _, b := range core.Blocks(f) {
-			for _, in := range b.Instrs {
-				// the walk over the keys index: a range over a map from index key to the entries stored under it
-				if x, ok := in.(*ssa.Range); ok {
-					if mt, isMap := x.X.Type().Underlying().(*types.Map); isMap && core.TypeKey(mt.Elem()) == "tree.UpdateSlice" {
-						rng = x
-					}
-				}
-			}
-		}
-		if rng == nil {
-			r.Undecided("BRANCH-WHOLE", core.Site(f, "range over the keys index"), w.Pos(f.Pos()), "no range over intendedStoreIndex")
-		} else {
-			for i, ret := range core.Returns(f) {
-				r.Check(core.InstrBefore(rng, ret), "BRANCH-WHOLE", core.Site(f, "return#%d after the index walk", i), w.InstrPos(ret), "an answer given before the whole index was walked ignores contributions below (or at) the path")
-			}
-			eq := false
-			for _, b := range core.Blocks(f) {
-				for _, in := range b.Instrs {
-					bo, ok := in.(*ssa.BinOp)
-					if !ok || (bo.Op != token.EQL && bo.Op != token.NEQ) {
-						continue
-					}
-					isJoin := func(v ssa.Value) bool {
-						for _, oc := range core.OriginCalls(v) {
-							if core.CalleeIs(oc, "strings.Join") {
-								return true
-							}
-						}
-						return false
-					}
-					isKey := func(v ssa.Value) bool {
-						for _, o := range core.Origins(v) {
-							if n, ok := o.(*ssa.Next); ok && n.Iter == ssa.Value(rng) {
-								return true
-							}
-						}
-						return false
-					}
-					if (isJoin(bo.X) && isKey(bo.Y)) || (isJoin(bo.Y) && isKey(bo.X)) {
-						eq = true
-					}
-				}
-			}
-			r.Check(eq, "BRANCH-WHOLE", core.Site(f, "the path itself is part of the branch"), w.InstrPos(rng), "index key == joined path must be accepted")
-		}
-	}
+	// ---- BRANCH-WHOLE (shared with C09)
+	ruleBranchWhole(w, r)
 
 	// ---- CASE-ALTERNATIVES-LOADED (shared with C01)
 	r.Rule("CASE-ALTERNATIVES-LOADED", 1, "value flow: some read of stored intent content (TreeCacheClient.Read / ReadCurrentUpdatesHighestPriorities / cache.Client.Read) takes its paths from the member names of a choice (GetElementNames / GetChoiceElementNeighbors / elementToCaseMapping). Without it the content of a case that only other intents contribute to is never in the tree, so it cannot be sent when that case becomes the winning one.")
@@ -439,6 +390,45 @@ func c10(w *core.World, r *core.Report) {
 		return
 	}
 	ruleActiveCaseAgree(w, r)
+
+	// ---- ALL-DELETES-SENT
+	r.Rule("ALL-DELETES-SENT", 1, "RootEntry.ToProtoDeletes (the delete list of gNMI proto / JSON / JSON_IETF) hands on every delete that GetDeletes computed - the same set the XML renderer walks: the returned list is filled by one append inside the loop over the GetDeletes result, and no path through the loop body reaches the next element without that append or a return. A 'de-duplication' or 'covered by another delete' filter here makes the encodings disagree on what is deleted.")
+	if f := w.Func("pkg/tree", "RootEntry", "ToProtoDeletes"); f != nil {
+		ok, why := false, "no append of the converted delete path inside the loop over the GetDeletes result"
+		for _, c := range core.Calls(f) {
+			cc, isCall := c.(*ssa.Call)
+			if !isCall {
+				continue
+			}
+			bi, isB := cc.Call.Value.(*ssa.Builtin)
+			if !isB || bi.Name() != "append" || !core.OnCycle(cc) {
+				continue
+			}
+			// the loop header: index < len(<GetDeletes result>)
+			var head *ssa.If
+			for _, g := range core.GuardsOf(cc) {
+				if bo, isBo := g.If.Cond.(*ssa.BinOp); isBo && bo.Op == token.LSS && g.CondTrue() {
+					if lc, isL := bo.Y.(*ssa.Call); isL {
+						if lb, isLB := lc.Call.Value.(*ssa.Builtin); isLB && lb.Name() == "len" {
+							for _, oc := range core.OriginCalls(lc.Call.Args[0]) {
+								if strings.HasSuffix(core.CalleeKey(oc), ".GetDeletes") {
+									head = g.If
+								}
+							}
+						}
+					}
+				}
+			}
+			if head == nil {
+				continue
+			}
+			body := head.Block().Succs[0]
+			skip, tr := core.PathQuery{Avoid: func(in ssa.Instruction) bool { return in == ssa.Instruction(cc) }}.Reaches(body, 0, func(in ssa.Instruction) bool { return in == ssa.Instruction(head) })
+			ok = !skip
+			why = fmt.Sprintf("an iteration reaches the next delete without handing this one on (blocks %v)", tr)
+		}
+		r.Check(ok, "ALL-DELETES-SENT", core.Site(f, "every computed delete is handed on"), w.Pos(f.Pos()), why)
+	}
 
 	// ---- FORWARD
 	r.Rule("FORWARD", 8, "the recursive encoders (toXmlInternal, toJsonInternal, GetHighestPrecedence, GetDeletes) pass every option parameter of the caller unchanged and in the same position to every recursive call; toXmlInternal hands operationWithNamespace / useOperationRemove (and onlyNewOrUpdated) unchanged to AddXMLOperation / TypedValueToXML; the public entry points (ToXML, ToJson, ToJsonIETF, TargetSourceReplace.ToXML) forward their parameters.")
@@ -820,6 +810,77 @@ func c10(w *core.World, r *core.Report) {
 				}
 			}
 			r.Check(!dep, "RECURSE", core.Site(f, "children visited regardless of own variant"), w.InstrPos(c), "an entry with an own value (presence container) still has children to visit")
+		}
+	}
+}
+
+// ruleBranchWhole (C08, C09): GetBranchesHighesPrecedence answers from a walk over the whole index, for this call's
+// filters.
+func ruleBranchWhole(w *core.World, r *core.Report) {
+	r.Rule("BRANCH-WHOLE", 2, "GetBranchesHighesPrecedence answers for the path itself AND everything below it: every return comes after the walk over the whole keys index (no early answer from an exact hit), the loop accepts a key equal to the joined path (an equality test of the range key with the join result exists) as well as keys below it. Presence containers are stored at their own path while other intents may hold values below them.")
+	if f := w.Func("pkg/tree", "TreeCacheClientImpl", "GetBranchesHighesPrecedence"); f != nil {
+		var rng *ssa.Range
+		for _, b := range core.Blocks(f) {
+			for _, in := range b.Instrs {
+				// the walk over the keys index: a range over a map from index key to the entries stored under it
+				if x, ok := in.(*ssa.Range); ok {
+					if mt, isMap := x.X.Type().Underlying().(*types.Map); isMap && core.TypeKey(mt.Elem()) == "tree.UpdateSlice" {
+						rng = x
+					}
+				}
+			}
+		}
+		if rng == nil {
+			r.Undecided("BRANCH-WHOLE", core.Site(f, "range over the keys index"), w.Pos(f.Pos()), "no range over intendedStoreIndex")
+		} else {
+			for i, ret := range core.Returns(f) {
+				r.Check(core.InstrBefore(rng, ret), "BRANCH-WHOLE", core.Site(f, "return#%d after the index walk", i), w.InstrPos(ret), "an answer given before the whole index was walked ignores contributions below (or at) the path")
+			}
+			eq := false
+			for _, b := range core.Blocks(f) {
+				for _, in := range b.Instrs {
+					bo, ok := in.(*ssa.BinOp)
+					if !ok || (bo.Op != token.EQL && bo.Op != token.NEQ) {
+						continue
+					}
+					isJoin := func(v ssa.Value) bool {
+						for _, oc := range core.OriginCalls(v) {
+							if core.CalleeIs(oc, "strings.Join") {
+								return true
+							}
+						}
+						return false
+					}
+					isKey := func(v ssa.Value) bool {
+						for _, o := range core.Origins(v) {
+							if n, ok := o.(*ssa.Next); ok && n.Iter == ssa.Value(rng) {
+								return true
+							}
+						}
+						return false
+					}
+					if (isJoin(bo.X) && isKey(bo.Y)) || (isJoin(bo.Y) && isKey(bo.X)) {
+						eq = true
+					}
+				}
+			}
+			r.Check(eq, "BRANCH-WHOLE", core.Site(f, "the path itself is part of the branch"), w.InstrPos(rng), "index key == joined path must be accepted")
+		}
+	}
+	// the answer is computed for the filters of THIS call: every return that is not a constant depends on them (a
+	// result memoised per path is the filtered answer of an earlier call)
+	if f := w.Func("pkg/tree", "TreeCacheClientImpl", "GetBranchesHighesPrecedence"); f != nil {
+		fp := core.Param(f, "filters")
+		for i, ret := range core.EffectiveReturns(f) {
+			vals := core.ReturnValues(ret)
+			if len(vals) != 1 || fp == nil {
+				continue
+			}
+			if _, isC := vals[0].(*ssa.Const); isC {
+				continue
+			}
+			sl := core.BackwardSlice(f, []ssa.Value{vals[0]}, nil)
+			r.Check(sl.HasValue(fp), "BRANCH-WHOLE", core.Site(f, "return#%d depends on the filters", i), w.InstrPos(ret), "the answer must be computed with the owner filters of this call (the caller asks once with the acting owners excluded and once for everything)")
 		}
 	}
 }
